@@ -9,7 +9,8 @@
 //!
 //! Op grammar (numbers are decimal):
 //!   case <n>
-//!   cfg <arc|arena|arc-unsync|arena-unsync> <s0[,s1[,s2]]> <init|-> <none|d|dm|md>     (first op, mandatory)
+//!   cfg <arc|arena|arc-unsync|arena-unsync> <s0[,s1[,s2]]> <init|-> <none|d|dm|md> [sig|memo]   (first op, mandatory;
+//!        memo = the fetcher reads the sources through one memo of all of them instead of directly)
 //!   set <i> <v>        write source i
 //!   refetch            `d.mark_dirty()` (what `Resource::refetch` amounts to at this level)
 //!   mset <v>           manual write `d.set(Some(v))` through the `Write` impl
@@ -82,10 +83,13 @@ type Sh = Arc<Mutex<Shared>>;
 
 type Fut = Pin<Box<dyn Future<Output = u32> + Send>>;
 
-fn fetcher(sh: Sh, srcs: Vec<ArcRwSignal<u32>>) -> impl Fn() -> Fut + Send + Sync + 'static {
+fn fetcher(sh: Sh, srcs: Vec<ArcRwSignal<u32>>, via: Option<ArcMemo<Vec<u32>>>) -> impl Fn() -> Fut + Send + Sync + 'static {
     move || {
-        // tracked reads of every source, at the time the future is created
-        let inputs: Vec<u32> = srcs.iter().map(|s| s.get()).collect();
+        // tracked reads of every source (or of the memo of all sources), at the time the future is created
+        let inputs: Vec<u32> = match &via {
+            Some(m) => m.get(),
+            None => srcs.iter().map(|s| s.get()).collect(),
+        };
         let (tx, rx) = oneshot::channel::<u32>();
         let f = {
             let mut g = sh.lock().unwrap();
@@ -274,7 +278,7 @@ impl Live {
         sched::reset();
     }
 
-    fn configure(&mut self, kind: Kind, srcs: Vec<u32>, init: Option<u32>, eff: EffKind) {
+    fn configure(&mut self, kind: Kind, srcs: Vec<u32>, init: Option<u32>, eff: EffKind, via_memo: bool) {
         let owner = Owner::new();
         owner.set();
         self.owner = Some(owner);
@@ -283,7 +287,14 @@ impl Live {
         self.init = init;
         self.cur_src = srcs.clone();
         self.srcs = srcs.iter().map(|v| ArcRwSignal::new(*v)).collect();
-        let dv = Dv::new(kind, init, fetcher(self.sh.clone(), self.srcs.clone()));
+        let via = via_memo.then(|| {
+            let srcs = self.srcs.clone();
+            ArcMemo::new(move |_| srcs.iter().map(|s| s.get()).collect::<Vec<u32>>())
+        });
+        if via_memo {
+            self.tags.insert("memo-source");
+        }
+        let dv = Dv::new(kind, init, fetcher(self.sh.clone(), self.srcs.clone(), via));
         if eff != EffKind::None {
             let memo = {
                 let srcs = self.srcs.clone();
@@ -430,7 +441,12 @@ impl Live {
         let num = |s: &str| s.parse::<u32>().ok();
         let idx = |s: &str| s.parse::<usize>().ok();
         const BAD: &str = "bad-op";
-        if let ["cfg", kind, srcs, init, eff] = w.as_slice() {
+        if let ["cfg", kind, srcs, init, eff] | ["cfg", kind, srcs, init, eff, _] = w.as_slice() {
+            let via_memo = match w.get(5) {
+                None | Some(&"sig") => false,
+                Some(&"memo") => true,
+                _ => return BAD.into(),
+            };
             if self.dv.is_some() {
                 return BAD.into();
             }
@@ -461,7 +477,7 @@ impl Live {
                 "md" => EffKind::MD,
                 _ => return BAD.into(),
             };
-            self.configure(kind, vs, init, eff);
+            self.configure(kind, vs, init, eff, via_memo);
             return w.join(" ");
         }
         if self.dv.is_none() {
@@ -610,6 +626,7 @@ fn run(ops_path: &str, out_path: &str) -> std::io::Result<()> {
 
 const KINDS: [&str; 4] = ["arc", "arena", "arc-unsync", "arena-unsync"];
 const EFFS: [&str; 4] = ["none", "d", "dm", "md"];
+const VIAS: [&str; 2] = ["sig", "memo"];
 
 struct Gen {
     out: std::io::BufWriter<std::fs::File>,
@@ -639,10 +656,10 @@ fn gen_exhaustive(g: &mut Gen, len: usize, alphabet: &[&str], effs: &[&str], pre
     let n = alphabet.len();
     let total = n.pow(len as u32);
     let mut rot = 0usize;
-    for eff in effs {
+    for (eff, via) in effs.iter().flat_map(|e| VIAS.iter().map(move |v| (e, v))) {
         for code in 0..total {
             let mut c = code;
-            let mut l = vec![format!("cfg {} 0 {} {}", KINDS[rot % 4], if rot % 5 == 4 { "7" } else { "-" }, eff)];
+            let mut l = vec![format!("cfg {} 0 {} {} {}", KINDS[rot % 4], if rot % 5 == 4 { "7" } else { "-" }, eff, via)];
             rot += 1;
             let mut next_val = 1;
             for _ in 0..len {
@@ -665,7 +682,7 @@ fn gen_exhaustive(g: &mut Gen, len: usize, alphabet: &[&str], effs: &[&str], pre
 /// polls of the derived's task / the effect's task (the shape "overlapping writes, first result last")
 fn gen_two_writes(g: &mut Gen) {
     let alphabet = ["set", "complete last", "poll 0", "poll 1", "poll 2"];
-    for eff in EFFS {
+    for (eff, via) in EFFS.iter().flat_map(|e| VIAS.iter().map(move |v| (e, v))) {
         for pre in ["", "idle", "complete last;idle", "attach;idle", "attach;complete last;idle"] {
             for code in 0..alphabet.len().pow(4) {
                 let mut c = code;
@@ -677,7 +694,7 @@ fn gen_two_writes(g: &mut Gen) {
                 if seq.iter().filter(|a| **a == "set").count() != 2 {
                     continue;
                 }
-                let mut l = vec![format!("cfg arc 1,2 - {eff}")];
+                let mut l = vec![format!("cfg arc 1,2 - {eff} {via}")];
                 for p in pre.split(';').filter(|p| !p.is_empty()) {
                     l.push(p.to_string());
                 }
@@ -708,7 +725,8 @@ fn gen_random(g: &mut Gen, rng: &mut Rng) {
         6..=7 => "dm",
         _ => "md",
     };
-    let mut l = vec![format!("cfg {} {} {} {}", rng.pick(&KINDS), srcs.join(","), init, eff)];
+    let via = if rng.chance(2, 5) { "memo" } else { "sig" };
+    let mut l = vec![format!("cfg {} {} {} {} {}", rng.pick(&KINDS), srcs.join(","), init, eff, via)];
     let len = rng.range(3, 30);
     let poll_bias = rng.range(0, 8);
     let mut naw = 0;
